@@ -1,6 +1,6 @@
 (* C06 — calls return to their call site; arguments and results arrive intact. *)
 From Coq Require Import List ZArith Bool Arith.
-From PV Require Import IC10.Values IC10.Machine IC10.Monitor Model.RaInsert Model.RaInsertProofs.
+From PV Require Import IC10.Values IC10.Machine IC10.Monitor Model.RaInsert Model.RaInsertProofs Model.RaPushPop.
 Import ListNotations.
 
 (* the shadow-stack monitor only observes: the monitored run IS the machine's run, for every
@@ -21,6 +21,29 @@ Proof. exact add_ra_fixed_shape. Qed.
 Theorem C06_leaf_functions_untouched :
   forall c, have_calls c && have_returns c = false -> add_ra_fixed c = Some c.
 Proof. exact add_ra_fixed_untouched. Qed.
+
+(* push/pop convention, for EVERY instruction list that starts with the function's label and whose
+   `push ra` position is not also a `pop ra` position: (1) the insertions leave the original
+   instructions in place and put, in front of the instruction with original index i, exactly the
+   elements scheduled for i (`push ra` after the argument pops, `pop ra` at each exit or in front of
+   the value push preceding it); (2) reading the result from the top, every exit - an early return
+   `j <name>end` as well as the end label - is preceded by `pop ra` with at most the push of the
+   return value in between, so every path out of the function restores the return address *)
+Theorem C06_pushpop_result_is_decoration :
+  forall c, nth_error c 0 = Some Lab ->
+    ~ In (1 + leading_pops (tl c)) (dedup (map (pop_pos c) (exit_points c 0))) ->
+    have_calls c && have_returns c = true ->
+    add_ra_pushpop c =
+    decorate (at_pos (sort_desc ((1 + leading_pops (tl c), PushRa)
+                                 :: map (fun p => (p, PopRa)) (dedup (map (pop_pos c) (exit_points c 0)))))) c 0.
+Proof. intros c H1 H2 H3. exact (pushpop_is_decorate c H1 H2 H3). Qed.
+
+Theorem C06_pushpop_exits_are_guarded :
+  forall c, nth_error c 0 = Some Lab ->
+    ~ In (1 + leading_pops (tl c)) (dedup (map (pop_pos c) (exit_points c 0))) ->
+    have_calls c && have_returns c = true ->
+    scan (add_ra_pushpop c) false = true.
+Proof. exact pushpop_exits_are_guarded. Qed.
 
 Example C06_nonvacuous :
   add_ra_fixed [Lab; Other; Call; JEnd; Other; EndLab; JRa] = Some [Lab; PushRa; Other; Call; JEnd; Other; EndLab; PopRa; JRa] /\
